@@ -110,7 +110,7 @@ Definition allow_list : list (site * reason) := [
   ((f_rings, "_is_condensed_ring", "for for n in common"), OrderFree "filter_set_perm");            (* builds a set by filtering *)
   ((f_rings, "_is_condensed_ring", "call iter(nbrs)"), IntHistory rings_note);
   ((f_rings, "_is_condensed_ring", "unpack n, m = term"), IntHistory "same expression as in _connected_rings (merged_ring_sym), but that n-m is a bond of both REDUCED rings is not established here");
-  ((f_rings, "_is_condensed_ring", "unpack n, m = common"), IntHistory "same expression as in _connected_rings (merged_ring_sym), but without the guard that n-m is a common bond");
+  ((f_rings, "_is_condensed_ring", "unpack n, m = common"), IntHistory "same expression as in _connected_rings, but without the guard that n-m is a common bond: NOT order free then (C19_merged_ring_unguarded_refuted); int set, differential only");
   ((f_rings, "_is_condensed_ring", "call iter(neighbors[child])"), IntHistory rings_note);
   ((f_rings, "_connected_rings", "unpack n, m = common"),
      OrderFreeIf "merged_ring_sym" "both rings are duplicate-free spellings of >= 3 atoms, share exactly the two atoms (len(common) == 2) and n-m is a bond of both (the guard `m in ck[n] and m in rk[n]`, symmetric because _ring_adjacency is)");
